@@ -104,7 +104,9 @@ func (g *gen) leafReq(group string, s int, depth int) map[string]any {
 func (g *gen) nestedRule(m map[string]any, n int) {
 	want := func() int { // a number of nested requirements to ask for
 		switch {
-		case n >= 2 && g.p(0.72):
+		case n >= 2 && g.p(0.5):
+			return 2
+		case n >= 2 && g.p(0.5):
 			return g.between(2, n)
 		case g.p(0.5):
 			return 1
@@ -172,11 +174,11 @@ func (g *gen) nestedDefinition() *defSpec {
 	if g.p(0.2) {
 		tree["name"] = "generated definition (requirement tree)"
 	}
-	if g.p(0.15) {
+	if g.p(0.1) {
 		ds.format = g.format()
 		tree["format"] = ds.format
 	}
-	nGroups := 2 + g.weighted(3, 5, 3)
+	nGroups := 2 + g.weighted(2, 5, 4)
 	var groups []groupSpec
 	var assign []string
 	for i := 0; i < nGroups; i++ {
@@ -246,7 +248,7 @@ func (g *gen) nestedWallet(ds *defSpec) *wallet {
 		w.class = "empty"
 		return w
 	}
-	pFull := []float64{1, 0.85, 0.6, 0.35}[g.weighted(5, 4, 2, 1)]
+	pFull := []float64{1, 0.85, 0.6, 0.35}[g.weighted(6, 4, 2, 1)]
 	byGroup := map[string][]*descSpec{}
 	var order []string
 	for _, d := range ds.descs {
